@@ -1,8 +1,8 @@
 #!/verif/.venv/bin/python
 # Replay of a solver counterexample against the unmodified code (no shims).
-# property=C15 kernel=l1 label=c15:buffer_length
+# property=C15 kernel=l1 label=c15:disable_waits_fall
 import sys
 sys.path[:0] = ['/repo' + "/pulser-core", '/repo' + "/pulser-simulation", "/verif"]
 from symx.replay import replay
-sys.exit(replay(check='checks.c15', kernel='l1', shape={'own': {'clock': 1, 'local': False, 'slots': ['pulseA'], 'mod': True, 'pj': 'derived', 'det_off': 0.0, 'eom': {'custom_buffer': True, 'blocks': []}}, 'op': ['enable_eom', 0.0], 'maxseq': True},
-                assignment={'max_sequence_duration': 10, 'own.min_duration': 3, 'own.tr': 2, 'own.eom_buffer': 2, 'own.eom_tr': 1, 'own.s0.dur': 3, 'buf#1.start': 0, 'buf#1.end': 0, 'buf#2.start': 0, 'buf#2.end': 0, 'buf#3.start': 0, 'buf#3.end': 0, 'buf#4.start': 0, 'buf#4.end': 0}, label='c15:buffer_length'))
+sys.exit(replay(check='checks.c15', kernel='l1', shape={'own': {'clock': 1, 'local': False, 'slots': ['ddelayA'], 'mod': True, 'pj': 'derived', 'det_off': -1.5, 'eom': {'custom_buffer': False, 'blocks': [(0, None)]}}, 'op': ['disable_eom'], 'maxseq': True, 'nbarriers': 1},
+                assignment={'max_sequence_duration': 2, 'own.min_duration': 1, 'own.tr': 1, 'own.eom_tr': 1, 'own.s0.dur': 2, 'buf#1.start': 0, 'buf#1.end': 0, 'buf#2.start': 0, 'buf#2.end': 0}, label='c15:disable_waits_fall'))
